@@ -264,6 +264,45 @@ func ruleC19SessionNil(c *Ctx) {
 	if n == 0 {
 		c.bad("defaultHandler.session/uses", "", "no uses of h.session found")
 	}
+	// the nil guards only work if a typed-nil pointer is never stored into the interface-typed field: every store of a
+	// factory result must be on that call's err == nil edge
+	ns := 0
+	for _, f := range u.RepoFuncs {
+		allInstrs(f, func(i ssa.Instruction) {
+			st, ok := i.(*ssa.Store)
+			if !ok {
+				return
+			}
+			base, fld, isF := fieldAccess(st.Addr)
+			if !isF || fld != "session" || !typeIsNamed(base.Type(), pkgServer, "defaultHandler") {
+				return
+			}
+			ns++
+			c.CallSites++
+			construct := shortName(f) + "/session-store"
+			v := st.Val
+			if mi, isMI := v.(*ssa.MakeInterface); isMI {
+				v = mi.X
+			}
+			if isNilConst(strip(st.Val)) {
+				c.ok(construct, u.ipos(i), "stores the nil interface")
+				return
+			}
+			ex, isEx := resolve(v).(*ssa.Extract)
+			good := false
+			if isEx {
+				if e := pairedError(ex); e != nil && knownNil(e, i.Block()) {
+					good = true
+				}
+			} else if _, isAlloc := resolve(v).(*ssa.Alloc); isAlloc {
+				good = true
+			}
+			c.check(good, construct, u.ipos(i), "session stored only where the factory's error is known nil", "a (possibly nil) *Session is stored into the interface-typed session field without the factory call being known to have succeeded: a typed-nil pointer defeats the `h.session == nil` guards and the next request or end of stream panics")
+		})
+	}
+	if ns == 0 {
+		c.bad("defaultHandler.session/stores", "", "h.session is never assigned")
+	}
 }
 
 func ruleC19NilSafeDecoding(c *Ctx) {
